@@ -2,7 +2,7 @@ import NodisVerif.Proofs.C08Others
 import NodisVerif.Proofs.C08Tie
 import NodisVerif.Proofs.C16Handlers
 import NodisVerif.Proofs.GateInv
-import NodisVerif.Proofs.GateProgRun
+import NodisVerif.Proofs.GateProgExamples
 /-
   C08 — MULTI/EXEC runs the queue exactly once, in order, isolated — or not at all.
 
@@ -529,6 +529,99 @@ theorem gateprog_queued_bodies_inside_section (sch : List (GateProg.Tid × GateP
   generalize (GateProg.run {} sch).1.loc g = l at *
   generalize ((GateProg.run {} sch).1.sh.conn g).commit = cm at *
   rcases hpc with h | h | h | h <;> simp_all [GateProg.ok, GateProg.bodyOk, GateProg.gateIs]
+
+/-! Directly on the program model. -/
+
+/-- between two commands - when the closure's deferred calls have run: after a normal return, after an error reply,
+    after a recovered panic (all of them end in `dRec`, `flush`, `idle`) - and before the next command has chosen its
+    side (`sw`), the goroutine holds no side of execMu. -/
+def betweenCommands : GateProg.Pc → Bool
+  | .dRec | .flush | .idle | .sw => true
+  | _ => false
+
+/-- The gate taken by a command is released on every path. -/
+theorem gate_released_on_every_path (sch : List (GateProg.Tid × GateProg.Choice)) (g : GateProg.Tid)
+    (hpc : betweenCommands ((GateProg.run {} sch).1.loc g).pc = true) (m : GMode) :
+    (g, m) ∉ (GateProg.run {} sch).1.sh.execMu ∧ ((GateProg.run {} sch).1.loc g).held = none := by
+  have hi := gateprog_invariant sch
+  have hok := hi.ok g
+  have hh : ((GateProg.run {} sch).1.loc g).held = none := by
+    generalize (GateProg.run {} sch).1.loc g = l at *
+    generalize ((GateProg.run {} sch).1.sh.conn g).commit = cm at *
+    cases h : l.pc <;> simp [h, betweenCommands] at hpc <;> simp_all [GateProg.ok, GateProg.gateIs]
+  refine ⟨fun hm => ?_, hh⟩
+  have := (hi.mu g m).1 hm
+  rw [hh] at this; cases this
+
+/-- … and every way out of a handler leads there: the deferred calls of the closure (`dOut`, `dUnlock`, `dRec`) and the
+    flush report nothing but the release and go on to `idle`. -/
+theorem epilogue_reports_only_the_release {s : GateProg.Shared} {t : GateProg.Tid} {l : GateProg.Loc} {ch : GateProg.Choice}
+    {s' l' evs} (hpc : l.pc = .dOut ∨ l.pc = .dUnlock ∨ l.pc = .dRec ∨ l.pc = .flush)
+    (hs : GateProg.tstep s t l ch = some (s', l', evs)) :
+    (∀ e ∈ evs, e = Ev.gout t) ∧ s'.active = s.active ∧
+    (l'.pc = .dUnlock ∨ l'.pc = .dRec ∨ l'.pc = .flush ∨ l'.pc = .idle) :=
+  GateProg.epilogue_tstep hpc hs
+
+/-- A command that is queued in MULTI takes no keyspace step before EXEC: `execCommand` on a queuing connection appends
+    the closure, reports nothing, touches neither execMu nor the transactions nor the watch registry, and returns into
+    the deferred calls (which report only the release: `epilogue_reports_only_the_release`). -/
+theorem queued_command_takes_no_keyspace_step {s : GateProg.Shared} {t : GateProg.Tid} {l : GateProg.Loc}
+    {ch : GateProg.Choice} {s' l' evs} (hpc : l.pc = .ec) (hq : (s.conn t).prep = true)
+    (hs : GateProg.tstep s t l ch = some (s', l', evs)) :
+    evs = [] ∧ (l'.pc = .dOut ∨ l'.pc = .dRec) ∧ (s'.conn t).queue = (s.conn t).queue ++ [GateProg.qcmdOf l.cmd] ∧
+    s'.active = s.active ∧ s'.execMu = s.execMu ∧ s'.registry = s.registry :=
+  GateProg.queued_tstep hpc hq hs
+
+/-- the pcs after the handler of the last command has returned -/
+def commandOver : GateProg.Pc → Bool
+  | .dOut | .dUnlock | .dRec | .flush | .idle => true
+  | _ => false
+
+/-- After EXEC / DISCARD the connection's state is MultiNone and its queue is empty on every path (EXEC without MULTI,
+    EXECABORT, the null reply, the empty transaction, bodies that panic, DISCARD): in every reachable configuration in
+    which the handler of EXEC / DISCARD has returned. -/
+theorem after_exec_discard_state_and_queue_clean (sch : List (GateProg.Tid × GateProg.Choice)) (g : GateProg.Tid)
+    (hc : GateProg.isExecOrDiscard ((GateProg.run {} sch).1.loc g).cmd = true)
+    (hpc : commandOver ((GateProg.run {} sch).1.loc g).pc = true) :
+    ((GateProg.run {} sch).1.sh.conn g).none? = true ∧ ((GateProg.run {} sch).1.sh.conn g).queue = [] := by
+  have hd := GateProg.reach_done sch g
+  generalize (GateProg.run {} sch).1.loc g = l at *
+  generalize (GateProg.run {} sch).1.sh.conn g = cs at *
+  cases h : l.pc <;> simp [h, commandOver] at hpc <;> simp_all [GateProg.doneOk]
+
+/-- PARTIAL (watches): `unwatchAll` empties the connection's own watch map in its one critical section (pc u2), on the
+    way out of EXEC and DISCARD alike.  What is missing for "its watches are gone" in every later configuration: that no
+    other goroutine's signal re-creates an entry, i.e. the registry invariant `t ∈ watchedKeys[k] → k ∈ t.WatchKeys`
+    with duplicate-free watcher lists (then `unwatchLoop` removes `t` from every list it is in).  Not proved here. -/
+theorem after_exec_discard_watches_gone_partial {s : GateProg.Shared} {t : GateProg.Tid} {l : GateProg.Loc}
+    {ch : GateProg.Choice} {s' l' evs} (hpc : l.pc = .u2) (hs : GateProg.tstep s t l ch = some (s', l', evs)) :
+    (s'.conn t).watch = [] ∧ l'.pc = .u3 ∧ evs = [] := by
+  simp only [GateProg.tstep, hpc] at hs
+  injection hs with hs; injection hs with h1 h2; injection h2 with h2 h3
+  subst h1 h2 h3
+  simp
+
+open GateProg.Ex in
+example : ∃ gs, Gate.run {} (GateProg.run {} (schedToCheck ++ schedRest)).2 = some gs ∧ gs.holders = [] ∧ gs.clients = [1] :=
+  ⟨_, by rw [trace_exec]; rfl, rfl, rfl⟩
+open GateProg.Ex in
+example : ((GateProg.run {} schedToCheck).1.loc 1).held = some .x ∧ ((GateProg.run {} schedToCheck).1.loc 1).rep = true := by decide
+open GateProg.Ex in
+example : ((GateProg.run {} schedToCheck).1.loc 1).held = some .x ∧ ((GateProg.run {} schedToCheck).1.loc 1).rep = true ∧
+    Ev.gout 1 ∉ (GateProg.run (GateProg.run {} schedToCheck).1 schedSeg).2 ∧
+    (GateProg.run (GateProg.run {} schedToCheck).1 schedSeg).2 = [.chk 1, .run 1, .txb 1 3] := by decide
+open GateProg.Ex in
+example : inExecHandler ((GateProg.run {} schedToCheck).1.loc 1).pc = true := by decide
+open GateProg.Ex in
+example : betweenCommands ((GateProg.run {} schedAbort).1.loc 1).pc = true ∧
+    betweenCommands ((GateProg.run {} schedWatch).1.loc 1).pc = true := by decide
+open GateProg.Ex in
+example : GateProg.isExecOrDiscard ((GateProg.run {} schedWatch).1.loc 1).cmd = true ∧
+    commandOver ((GateProg.run {} schedWatch).1.loc 1).pc = true ∧ ((GateProg.run {} schedWatch).1.loc 1).noChange = false ∧
+    GateProg.isExecOrDiscard ((GateProg.run {} schedAbort).1.loc 1).cmd = true ∧
+    commandOver ((GateProg.run {} schedAbort).1.loc 1).pc = true ∧
+    GateProg.isExecOrDiscard ((GateProg.run {} schedDiscard).1.loc 1).cmd = true ∧
+    commandOver ((GateProg.run {} schedDiscard).1.loc 1).pc = true := by decide
 
 end gateprog
 
